@@ -60,7 +60,20 @@ def call_text(c, coll_expr):
         return "sort(%s)" % coll_expr
     if c["how"] == "flags":
         return 'sort(%s, "%s")' % (coll_expr, "".join(c["flags"]))
-    return "sort(%s, %s)" % (coll_expr, LAMBDA[c["lam"]])
+    return "sort(%s, %s)" % (coll_expr, lambda_text(c["lam"], coll_expr))
+
+
+# "returning < 0, 0, or > 0 as a < b, a == b, or a > b": only the sign of the comparator's result counts; the same function is
+# also spelled so that it returns fractions and large numbers (a rendering table; which spelling a call gets depends on the
+# text of its collection only, so that it is stable)
+SCALES = ["%s", "(%s) * 0.5", "(%s) * 7", "(%s) / 4", "(%s) * 0.001"]
+
+
+def lambda_text(lam, coll_expr):
+    import zlib
+    t = LAMBDA[lam]
+    body = t[t.index("return ") + 7:t.rindex("}")]
+    return t[:t.index("return ") + 7] + SCALES[zlib.crc32((lam + coll_expr).encode()) % len(SCALES)] % body + "}"
 
 
 def fn_group(c):
